@@ -21,7 +21,7 @@ def drive_merge_clients(ctx, tier):
     from . import w_auto
     from sigtools import wrappers
     rnd = ctx.rng('merge-clients')
-    n = {'quick': 300, 'thorough': 5000}[tier] // ctx.nshards
+    n = {'quick': 300, 'thorough': 25000}[tier] // ctx.nshards
     for _ in range(n):
         if ctx.out_of_time('merge clients'):
             break
@@ -64,7 +64,7 @@ def drive_session(ctx, tier, n_cases=None):
     rnd = ctx.rng('session')
     pool = w_alg.SigPool()
     U = sigs.U(('a', 'b', 'c'), 2) + sigs.U(('x', 'y'), 2)
-    n_cases = n_cases or {'quick': 40, 'thorough': 600}[tier] // ctx.nshards or 1
+    n_cases = n_cases or {'quick': 80, 'thorough': 5000}[tier] // ctx.nshards or 1
     for _ in range(n_cases):
         if ctx.out_of_time('sessions'):
             break
@@ -102,7 +102,7 @@ def drive_retrieval_clients(ctx, tier):
     W-AUTO grammar incl. chains through partial objects and methods)."""
     from . import w_auto
     rnd = ctx.rng('retrieval-clients')
-    n = {'quick': 300, 'thorough': 5000}[tier] // ctx.nshards
+    n = {'quick': 300, 'thorough': 25000}[tier] // ctx.nshards
     for _ in range(n):
         if ctx.out_of_time('retrieval clients'):
             break
@@ -128,7 +128,7 @@ def drive_modifiers(ctx, tier):
     from sigtools import modifiers, signatures as S
     rnd = ctx.rng('modifiers-provenance')
     U = [p for p in sigs.U(('a', 'b', 'c'), 3, stars=sigs.STARS2[:1]) if any(x[1] == PK for x in p)]
-    n = {'quick': 250, 'thorough': 6000}[tier] // ctx.nshards
+    n = {'quick': 250, 'thorough': 30000}[tier] // ctx.nshards
     count = itertools.count()
 
     def layer(obj, pk):
